@@ -7,7 +7,7 @@
    is a correspondence-level check, not yet a theorem for all circuits. *)
 From Coq Require Import ZArith QArith Bool List.
 From PV Require Import Base.Num Base.Outcome Circuit.ElemState Circuit.Tree Circuit.Token Circuit.Parser Circuit.Parser_facts.
-From PV Require Import Circuit.Registry Circuit.Printer Circuit.Token_decode Circuit.Printer_lex Circuit.Parser_basic Circuit.Parser_mono Circuit.Token_ws Circuit.Parser_ws Circuit.Parser_implicit Circuit.ElemProp Circuit.ElemState_facts Circuit.Parser_ext gen.Classes_gen.
+From PV Require Import Circuit.Registry Circuit.Printer Circuit.Token_decode Circuit.Printer_lex Circuit.Parser_basic Circuit.Parser_mono Circuit.Token_ws Circuit.Parser_ws Circuit.Parser_implicit Circuit.ElemProp Circuit.ElemState_facts Circuit.Token_ext Circuit.Printer_num Circuit.Parser_ext Circuit.Lex_ext gen.Classes_gen.
 Import ListNotations.
 
 (* A container's sub-circuit — in either written form — and a whole parameter block consume only what follows
@@ -113,8 +113,7 @@ Print Assumptions C03_basic_round_trip_applies.
    tree [xpconn]: the same elements — class, label, values, limits and fixed flags of each, in order ([xcleaves]) — with directly
    nested connections of the same kind merged and one-element series unwrapped.
    The values are carried by the number tokens; that the scanner turns the printed characters into these tokens (with every number
-   rounded to the printed precision) is validated on every generated circuit by the correspondence check of C03 (evaluated in Coq),
-   not proved. *)
+   rounded to the printed precision) is C03_extended_round_trip below. *)
 Theorem C03_extended_round_trip_tokens :
   forall reg, syms_unique reg = true ->
   forall pf c n', xpconn reg pf c = Some n' -> (2 * pf <= depth_budget)%nat ->
@@ -131,6 +130,31 @@ Theorem C03_constructor_rebuilds_the_element :
 Proof. exact build_exact. Qed.
 Print Assumptions C03_constructor_rebuilds_the_element.
 
+(* ---- the EXTENDED syntax, characters to tree ------------------------------------------------------------------------------------
+   The lexical half, proved for every number and every tree: what "%.dE" prints for a finite number is  [-] digit [. d digits] E sign
+   digits  (Printer_num.v, for every rational and every d); the scanner consumes exactly that (with the fixed marker), a parameter key
+   after "{" or ",", the keyword inf after "/", a label after ":" up to the closing brace, and punctuation, one lexeme per pass
+   (Token_ext.v); hence the text to_string(d) prints for a tree of elements without sub-circuits ([lex_conn_ok]: symbols and keys of the
+   validated shapes, keys of the class in order, finite values, limits that are numbers or infinite, no printed number beyond the range
+   of a double, a label that starts with a letter and contains no brace) is split into exactly the tokens of the theorem above for
+   the tree [rd_conn d c] in which every number is replaced by the value float() reads from its printed form (Lex_ext.v).
+   Together: print with to_string(d), scan, parse — the result is the specified tree and holds the elements of the printed tree at the
+   printed precision, in order. *)
+Theorem C03_extended_round_trip :
+  forall reg d, syms_unique reg = true ->
+  forall pf c n', lex_conn_ok reg d pf c = true -> xpconn reg pf (rd_conn d pf c) = Some n' -> (2 * pf <= depth_budget)%nat ->
+  exists ts, tokenize (to_string reg (Some d) c pf) = Ok ts /\ parse_tokens reg ts = Ok (top n')
+             /\ xcleaves (top n') = xcleaves (rd_conn d pf c).
+Proof. exact ext_round_trip. Qed.
+Print Assumptions C03_extended_round_trip.
+
+(* the shape of a printed number, for every rational and every number of decimals *)
+Theorem C03_printed_number_shape :
+  forall d q, fmtE d (Fin q) = num_text (np_neg (fmt_parts d q)) (np_c (fmt_parts d q)) (np_frac (fmt_parts d q)) (np_eneg (fmt_parts d q)) (np_edigs (fmt_parts d q))
+              /\ num_shape (np_c (fmt_parts d q)) (np_frac (fmt_parts d q)) (np_edigs (fmt_parts d q)).
+Proof. exact Printer_num.fmtE_parts. Qed.
+Print Assumptions C03_printed_number_shape.
+
 (* non-vacuity: every built-in class without sub-circuits is admitted at its defaults (22 classes), and a labelled, fixed, re-limited
    resistor in series with a parallel connection that holds a nested series is read back element by element *)
 Definition c03_ext_example : conn :=
@@ -143,7 +167,9 @@ Theorem C03_extended_round_trip_applies :
   (match xpconn builtin_registry 12 c03_ext_example with
    | Some n => list_eqb Nat.eqb (map fst (xcleaves (top n))) [11; 0; 11; 19]%nat
                && match top n with Ser [NE _ s _; NC (Par [_; NC (Ser [_; _])])] => list_eqb N.eqb (elabel s) [99; 116]%N | _ => false end
-   | None => false end) = true.
+   | None => false end) = true /\
+  lex_conn_ok builtin_registry 6 12 c03_ext_example = true /\
+  (match xpconn builtin_registry 12 (rd_conn 6 12 c03_ext_example) with Some _ => true | None => false end) = true.
 Proof. vm_compute. repeat split. Qed.
 Print Assumptions C03_extended_round_trip_applies.
 
